@@ -11,11 +11,12 @@
      dump (raw) loop: read_task_ustack directly - NO look-ahead filter                -> [raw_step]
      replay / script loop shape (--no-libcall tested BEFORE fstack_entry)             -> [rp_step]
 
-   One task, one session, user ENTRY/EXIT records only.  Not modelled: kernel/perf/event/LOST
-   records, several tasks (fstack_enabled is shared between tasks), -Z/size=, -L (needs DWARF),
-   elapsed-time ranges, --trace=off, exec/setjmp/fork fix-ups, stack deeper than max_stack.
+   One session, user ENTRY/EXIT records only; first for one task, then (last sections) for several tasks
+   merged by timestamp with ONE shared fstack_enabled.  Not modelled: kernel/perf/event/LOST records,
+   -Z/size=, -L (needs DWARF), elapsed-time ranges, --trace=off, exec/setjmp/fork fix-ups (tasks are threads),
+   stack deeper than max_stack.
 
-   The spec side ([tprune], [vis], [select]) is written by recursion on call trees.
+   The spec side ([tprune], [vis], [select], [vis_sw], [select_sw]) is written by recursion on call trees.
    NO proofs in this file.                                                                     *)
 From Coq Require Import NArith ZArith List Bool.
 Import ListNotations.
